@@ -21,6 +21,14 @@ CASES = [
  ("decoder.c: !x -> x == NULL", "src/decoder.c", [(r"if \(!jsgf\)", "if (jsgf == NULL)"), (r"if \(!fsg\)", "if (fsg == NULL)")], ["C05","C09","C10"]),
  ("cmn_live.c: guard as nframe < 1", "src/cmn_live.c", [(r"if \(cmn->nframe <= 0\)", "if (cmn->nframe < 1)")], ["C18"]),
  ("tmat.c: independent statements swapped", "src/tmat.c", [(r"    t->n_tmat = n_tmat;\n", ""), (r"    t->n_state = n_src;\n", "    t->n_state = n_src;\n    t->n_tmat = n_tmat;\n")], ["C17"]),
+ ("ps_endpointer.c: temp in ring advance", "src/ps_endpointer.c", [(r"        ep->pos = \(ep->pos \+ 1\) % ep->maxlen;\n    \} else", "        { int np = ep->pos + 1; ep->pos = np % ep->maxlen; }\n    } else")], ["C15"]),
+ ("hash_table.c: ++ as x = x + 1", "src/hash_table.c", [(r"\+\+h->inuse;", "h->inuse = h->inuse + 1;"), (r"--h->inuse;", "h->inuse = h->inuse - 1;")], ["C20"]),
+ ("decoder.c: += as x = x + k in result_json", "src/decoder.c", [(r"    maxlen \+= 6; /\* \"w\":,\[ \*/", "    maxlen = maxlen + 6;")], ["C14","C09"]),
+ ("ptm_mgau.c: clamp as ternary", "src/ptm_mgau.c", [(r"                if \(s->f->topn\[i\]\[j\]\[k\]\.score > MAX_NEG_ASCR\)\n                    s->f->topn\[i\]\[j\]\[k\]\.score = MAX_NEG_ASCR;", "                s->f->topn[i][j][k].score = (s->f->topn[i][j][k].score > MAX_NEG_ASCR) ? MAX_NEG_ASCR : s->f->topn[i][j][k].score;")], ["C18"]),
+ ("logmath.c: table bound with the cast on the other side", "src/logmath.c", [(r"if \(\(size_t\)d >= t->table_size\)", "if (d >= (int)t->table_size)")], ["C19"]),
+ ("cmn.c: zero-count guard as early exit of the loop", "src/cmn.c", [(r"    if \(cmn->nframe > 0\) \{\n        for \(i = 0; i < cmn->veclen; i\+\+\) \{\n            cmn->cmn_mean\[i\] = cmn->sum\[i\] / cmn->nframe;\n        \}\n    \}", "    for (i = 0; cmn->nframe > 0 && i < cmn->veclen; i++) {\n        cmn->cmn_mean[i] = cmn->sum[i] / cmn->nframe;\n    }")], ["C18"]),
+ ("tmat.c: dimension test split in two", "src/tmat.c", [(r"    if \(n_tmat <= 0 \|\| n_src <= 0\) \{", "    if (n_tmat <= 0)\n        goto error_out;\n    if (n_src <= 0) {")], ["C17"]),
+ ("fsg_model.c: range test with the operands swapped", "src/fsg_model.c", [(r"if \(endptr == val \|\| i < 0 \|\| i >= fsg->n_state\) \{", "if (endptr == val || 0 > i || fsg->n_state <= i) {")], ["C10","C13"]),
  ("fsg_search.c: temp introduced in find_exit", "src/fsg_search.c", [(r"    if \(out_score\)\n        \*out_score = bestscore;", "    if (out_score) {\n        int32 reported = bestscore;\n        *out_score = reported;\n    }")], ["C01","C02","C03"]),
 ]
 scratch = tempfile.mkdtemp(prefix="ss_benign_")
